@@ -57,6 +57,7 @@ def run(ctx):
     rule_bld(ctx, F)
     rule_bld_charstr(ctx, F)
     rule_bld_sub(ctx, F)
+    rule_bld_atomic(ctx, F)
     rule_cut(ctx, F)
     rule_restore(ctx, F)
     rule_cap(ctx, F)
@@ -200,6 +201,13 @@ def append_amount(b, t):
             return {1: x[2]}
         if x[0] == "arg":
             return {"n": 1}
+        # `&buf[..k]` of a local scratch array: k octets
+        if x[0] == "call" and (x[1] or "").endswith("Index::index") and len(x[3]) == 2:
+            rng = deep_strip(x[3][1])
+            if rng[0] == "agg" and "RangeTo" in str(rng[1]) and rng[2]:
+                e = linexp(rng[2][0], b)
+                if e is not None and set(e) <= {"n", 1}:
+                    return dict(e)
         return {"?": 1}
     if fn.endswith("Label::compose") and len(args) >= 2 and deep_strip(args[1]) == ("field", ("arg", 1), "builder"):
         return {"C": 1}
@@ -339,6 +347,44 @@ def rule_bld_sub(ctx, F):
 
 def _fmt_side(e):
     return " + ".join(("%s" % v) if s == 1 else ("%s%s" % ("" if v == 1 else v, {"L": "len", "H": "head", "n": "n"}.get(s, s))) for s, v in sorted(e.items(), key=lambda x: str(x[0])) if v != 0) or "0"
+
+
+def rule_bld_atomic(ctx, F):
+    """A failed append to a bounded buffer (ShortBuf) must not leave half a label behind: a label is started (`head` set)
+    only after its length octet and first content are in the buffer, written by *one* append; append_name writes each label
+    with one append.  Otherwise finish() after the error returns a name with an empty or short label (or panics)."""
+    R = "C03.bld"
+    for name in ("push", "append_slice"):
+        bs = F.find_bodies("^" + re.escape(NB + name) + r"(::<.*>)?$")
+        if len(bs) != 1:
+            continue
+        b = bs[0]
+        heads = []
+        for bi in sorted(b.reachable_blocks()):
+            if b.blocks[bi].get("c"):
+                continue
+            for st in b.blocks[bi]["s"]:
+                if st[0] == "=" and len(st[1]) > 1 and deep_strip(b.term_of_place(st[1])) == ("field", ("arg", 1), "head"):
+                    v = deep_strip(b.term_of_rvalue(st[2]))
+                    if v[0] == "agg" and "Some" in str(v[1]):
+                        heads.append(bi)
+        if not ctx.anchor(R, "NameBuilder::%s starts a label (head = Some(..))" % name, len(heads) >= 1, b.where()):
+            continue
+        apps = [bb for bb, tt in b.calls() if append_amount(b, tt) is not None]
+        for hb in heads:
+            later = [a for a in apps if a in b.reach_from(hb) and a != hb or (a == hb)]
+            # an append in the same block as the assignment comes after it only if it is the block's terminator: it always is
+            ctx.ob(R, b, "%s: a label is marked as started only after its first octets are written" % name, not later,
+                   "NameBuilder::%s sets `head` and then appends (in %d step(s)): when the buffer is full the append fails, but "
+                   "the builder is left with a label under construction that has no content (or no length octet) -- finish() "
+                   "then returns a name with an empty label, or panics" % (name, len(later)), b.where(hb))
+    bs = F.find_bodies("^" + re.escape(NB + "append_name") + r"(::<.*>)?$")
+    if len(bs) == 1:
+        b = bs[0]
+        two_step = [bb for bb, tt in b.calls() if re.search(r"Label::compose$", tt["fn"] or "")]
+        ctx.ob(R, b, "append_name writes each label with one append", not two_step,
+               "NameBuilder::append_name writes a label through Label::compose, i.e. the length octet and the content in two "
+               "appends: a buffer that takes the first and not the second is left with a label cut short", b.where(two_step[0]) if two_step else b.where())
 
 
 def rule_bld_charstr(ctx, F):
